@@ -434,12 +434,12 @@ def contains (t : Ternary) (x0 x1 x2 : Int) : Res Bool :=
 /-- `(n as f32).sqrt() as usize` for the sizes that occur -/
 def isqrt (n : Nat) : Nat := (List.range (n + 1)).foldl (fun r k => if k * k ≤ n then k else r) 0
 
-/-- `BinRelToTernaryInd1_2::len_estimate`: integer division by zero panics -/
+/-- `BinRelToTernaryInd1_2::len_estimate`: the divisor is `.max(1)` (since the repair of finding F17: an empty map used to divide by zero) -/
 def lenEstimate12 (t : Ternary) : Res Nat := do
   let rm1 ← unwrap t.rmap1
   let rm2 ← unwrap t.rmap2
-  let d := isqrt t.map.length
-  if d = 0 then .panic else pure (rm1.length * rm2.length / d)
+  let d := max (isqrt t.map.length) 1
+  pure (rm1.length * rm2.length / d)
 
 end Ternary
 
